@@ -46,7 +46,7 @@ DefReq == [ver2 |-> 5, cmd |-> 1, rsv |-> 0, atyp |-> 1, dlen |-> 0, dch |-> "na
 Reqs == {[DefReq EXCEPT !.ver2 = 4]}
    \cup {[ver2 |-> 5, cmd |-> cm, rsv |-> rs, atyp |-> at, dlen |-> 0, dch |-> "name"] : cm \in {1, 2, 3, 9}, rs \in {0, 1}, at \in {1, 4, 5}}
    \cup {[ver2 |-> 5, cmd |-> cm, rsv |-> rs, atyp |-> 3, dlen |-> dl, dch |-> "name"] : cm \in {1, 2, 3, 9}, rs \in {0, 1}, dl \in DLens}
-   \cup {[ver2 |-> 5, cmd |-> cm, rsv |-> 0, atyp |-> 3, dlen |-> dl, dch |-> "colon"] : cm \in {1, 2, 3, 9}, dl \in DLens \ {0}}
+   \cup {[ver2 |-> 5, cmd |-> cm, rsv |-> 0, atyp |-> 3, dlen |-> dl, dch |-> "colon"] : cm \in {1, 2}, dl \in DLens \ {0}}
 Greets == {[ver1 |-> 4, nm |-> 1, mset |-> "noauth"], [ver1 |-> 5, nm |-> 0, mset |-> "-"]}
      \cup {[ver1 |-> 5, nm |-> 1, mset |-> x] : x \in {"none", "noauth", "userpass"}}
      \cup {[ver1 |-> 5, nm |-> n, mset |-> x] : n \in {2, 255}, x \in {"none", "noauth", "userpass", "both"}}
